@@ -440,7 +440,8 @@ def body(ctx):
                   f"kernel/{tag.split('/')[0]}/P={P}/rain={rain}" + ("" if ierr == 0 else "/" + impl.replace(" ", "=")),
                   sample={"entry": "c_var2h", "P": P, "rainfall": rain, "maxgapsec": maxgap, "hstartsec": hstart,
                           "nvalh": nvalh, "varsec": secs[:8], "varvalues": case["vals"][:8],
-                          "returned": (impl if isinstance(impl, str) else enc_vals(impl[:6]))} if len(secs) <= 8 else None)
+                          "returned": (impl if isinstance(impl, str) else enc_vals(impl[:6]))}
+                  if len(secs) <= 8 and nontrivial else None)
 
     def make_index(secs, unit, tz):
         idx = pd.DatetimeIndex(np.array(secs, dtype="int64").astype("datetime64[s]")).as_unit(unit)
@@ -548,7 +549,8 @@ def body(ctx):
                   f"var2h/{tag}/P={P}/rain={rain}",
                   sample={"entry": "dutils.var2h", "P": P, "rainfall": rain, "maxgapsec": maxgap, "secs": secs[:8],
                           "values": case["vals"][:8], "variants": variants,
-                          "returned": (ref[1] if ref[0] == "err" else enc_vals(ref[1][:6]))} if len(secs) <= 8 else None)
+                          "returned": (ref[1] if ref[0] == "err" else enc_vals(ref[1][:6]))}
+                  if len(secs) <= 8 and nontrivial else None)
 
     def run_case(case, tag):
         if case.get("kind") == "wrapper":
@@ -723,6 +725,8 @@ def body(ctx):
 
 def main(tier, replay=None):
     return C.run_check(PID, tier, body, needs_native=True, replay=replay,
+                       level_partial=["independence of the index's storage resolution and time zone: established by the "
+                                      "oracle on the real code only (pandas index handling is external to the model)"],
                        trusted=["pandas DatetimeIndex / tz_localize / as_unit / date_range, numpy datetime64 casts (external: "
                                 "'epoch seconds of stamp i' is a parameter of the model)",
                                 "gcc -O1 -ffp-contract=off build of c_var2h.c; ctypes call convention"])
